@@ -33,6 +33,11 @@ CLAIMED.update({
          "Concurrency is the seeded order of whole requests (one critical section each); real parallel execution is exercised by C13's race mode."),
 })
 
+CLAIMED.update({
+ "C05": ("fault_enumeration", "5.5", "Crash = disk fork under the process-crash model: for each generated history (first start with self-generated keys, registration, authorizations incl. conflicts, reports, rotations incl. start-up catch-up) the data directory is copied at every observation point before/after each persistence write, between create and write of server.keys, at every boundary between operations, plus the present-but-empty states of server.keys and gcaPubKey.dat; every fork is booted twice as a fresh incarnation and must start, equal the model after exactly the operations whose write had completed, still accept the GCA's registration if none was durable, and be idempotent. Thorough enumerates every crash point of every history; quick a seeded half.",
+         "Process-crash model (completed system calls survive); power-loss effects are outside the property and not injected; real SIGKILL is replaced by disk forks at system-call boundaries (replayable)."),
+})
+
 NOT_YET = {
 }
 
